@@ -16,7 +16,14 @@ import warnings
 from collections import Counter
 
 import core
-from core import cz, clist, ctuple, copt, cbool
+from core import clist, ctuple, copt, cbool
+
+
+def cz(n):
+    """Z literal for the case files (Z_scope is open there; no scope delimiter: parses faster)."""
+    n = int(n)
+    return "(%d)" % n if n < 0 else "%d" % n
+
 
 # class codes shared with Model/C09.v (cls_* definitions there)
 CLS = {"Note": 0, "Rest": 1, "GraceNote": 2, "Measure": 3, "TimeSignature": 4, "KeySignature": 5,
@@ -105,7 +112,47 @@ def build(spec):
         part.add(tag(S.System(k + 1)), bounds[k])
     for k in spec.get("barlines", []):
         part.add(tag(S.Barline("light-heavy")), bounds[k])
+    part._pv_next = oid[0]
+    if spec.get("add_segments"):
+        # history: the caller registered the segments on the part beforehand (public add_segments)
+        S.add_segments(part)
     return part
+
+
+def apply_edit(part, spec):
+    """Second step of a history: change the SAME part through the public API (spec['edit']) and return
+    the spec describing the part as it is now.  Edits: {"add_repeat": [a, b]} a simple repeat over measures
+    a..b, {"remove_repeat": i} the i-th simple repeat, {"add_notes": [note rows]} further notes."""
+    import partitura.score as S
+    ed = spec["edit"]
+    t0 = spec.get("t0", 0)
+    bounds = [t0]
+    for ln in spec["measures"]:
+        bounds.append(bounds[-1] + ln)
+    s2 = json.loads(json.dumps(spec))
+    del s2["edit"]
+
+    def tag(o):
+        o._pv = part._pv_next
+        part._pv_next += 1
+        return o
+
+    if "add_repeat" in ed:
+        a, b = ed["add_repeat"]
+        part.add(tag(S.Repeat()), bounds[a], bounds[b])
+        s2.setdefault("repeats", []).append([a, b])
+    if "remove_repeat" in ed:
+        a, b = s2["repeats"].pop(ed["remove_repeat"])
+        victim = [r for r in part.iter_all(S.Repeat) if (r.start.t, r.end.t) == (bounds[a], bounds[b])][0]
+        part.remove(victim)
+    for nid, kind, m, on, dur, pitch, voice, staff in ed.get("add_notes", []):
+        step, alter, octave = STEPS[pitch % 7], (pitch // 7) % 3 - 1, 2 + (pitch // 21) % 4
+        part.add(tag(S.Note(step, octave, alter or None, id=nid, voice=voice, staff=staff)),
+                 bounds[m] + on, bounds[m] + on + dur)
+        s2["notes"].append([nid, kind, m, on, dur, pitch, voice, staff])
+    if spec.get("add_segments"):
+        S.add_segments(part, force_new=True)       # the documented way to refresh registered segments
+    return s2
 
 
 # ----------------------------------------------------------------------------
@@ -146,13 +193,16 @@ def sig_of(o, intern):
     return intern.setdefault(k, len(intern) + 1)
 
 
-def note_attrs(o):
-    """(pitch, voice, staff) of a note-like object; pitch -1 for rests / others."""
+def note_attrs(o, intern=None):
+    """(pitch, voice, staff) of a note-like object; pitch -1 for rests; time/key signatures carry the key of
+    their compared attributes (the signature they put in force); -2 for others."""
     n = type(o).__name__
     if n in ("Note", "GraceNote"):
         return (int(o.midi_pitch) * 10 + STEPS.index(o.step), o.voice or 0, o.staff or 0)
     if n == "Rest":
         return (-1, o.voice or 0, o.staff or 0)
+    if n in ("TimeSignature", "KeySignature") and intern is not None:
+        return (sig_of(o, intern), 0, 0)
     return (-2, 0, 0)
 
 
@@ -164,10 +214,10 @@ def iter_points_objects(part):
                 yield tp, o
 
 
-def dump_original(part):
+def dump_original(part, intern=None):
     """Object dump of the original: rows (oid, cls, start, end|None, sig, attrs, refs) with
     refs = [(attr index, [target oid ...])]; None-valued single references give []."""
-    intern = {}
+    intern = {} if intern is None else intern
     rows = []
     for tp, o in iter_points_objects(part):
         if not hasattr(o, "_pv"):
@@ -179,8 +229,13 @@ def dump_original(part):
                 tg = [] if v is None else (list(v) if isinstance(v, list) else [v])
                 refs.append((ai, [t._pv for t in tg]))
         rows.append((o._pv, cls_code(o), tp.t, None if o.end is None else o.end.t, sig_of(o, intern),
-                     note_attrs(o), refs))
+                     note_attrs(o, intern), refs))
     return rows
+
+
+def qd_table(part):
+    """[(time, divisions per quarter)] of a part (public quarter_durations())."""
+    return [(int(t), int(q)) for t, q in part.quarter_durations()]
 
 
 def fingerprint(part):
@@ -207,7 +262,7 @@ def fingerprint(part):
     return json.dumps(out, default=str)
 
 
-def dump_variant(u):
+def dump_variant(u, intern=None):
     """Canonical rows of an unfolded part + structural problems found while walking it.
     row = (oid, cls, start, end|None, attrs, id suffix or 0, refs[(attr, [None | (oid, start)])])"""
     problems = []
@@ -239,7 +294,8 @@ def dump_variant(u):
         nid = getattr(o, "id", None)
         if cls_code(o) in (0, 2) and isinstance(nid, str) and "-" in nid:
             suffix = int(nid.rsplit("-", 1)[1])
-        rows.append((oidv, cls_code(o), tp.t, None if o.end is None else o.end.t, note_attrs(o), suffix, refs))
+        rows.append((oidv, cls_code(o), tp.t, None if o.end is None else o.end.t,
+                     note_attrs(o, dict(intern) if intern is not None else None), suffix, refs))
     rows.sort(key=lambda r: (r[2], r[0], r[1], -1 if r[3] is None else r[3], json.dumps(r[6])))
     return rows, problems
 
@@ -279,24 +335,30 @@ POLICIES = [(False, False, True), (False, False, False), (False, True, True), (F
 TYPE_CODE = {"default": 0, "leap_start": 1, "leap_end": 2}
 
 
-def sid(s):
-    return -1 if s == "END" else (ord(s) - 65 if len(s) == 1 else -5)
+def seg_ranks(part):
+    """Segment id -> rank in start order (the naming scheme of the segments is not part of the property:
+    'A' is 0, 'B' is 1, ...); anything else ('END') is -1."""
+    segs = sorted(part.segments, key=lambda s: (s.start.t, s.end.t))
+    return {s.id: i for i, s in enumerate(segs)}, segs
 
 
 def impl_segments(part):
+    rank, segs = seg_ranks(part)
+    sid = lambda x: rank.get(x, -1)
     return [(sid(s.id), s.start.t, s.end.t, [sid(x) for x in s.to], [sid(x) for x in s.await_to],
-             TYPE_CODE.get(s.type, -1)) for s in part.segments]
+             TYPE_CODE.get(s.type, -1)) for s in segs]
 
 
 def impl_paths(part, pol):
-    """Path.path lists (as id lists) or None when get_paths raises / a path is too long."""
+    """Path.path lists (as rank lists) or None when get_paths raises / a path is too long."""
     import partitura.score as S
     nr, ar, il = pol
+    rank, _ = seg_ranks(part)
     try:
         ps = S.get_paths(part, no_repeats=nr, all_repeats=ar, ignore_leap_info=il)
     except (IndexError, RecursionError, KeyError) as e:
         return None, None, type(e).__name__
-    out = [[sid(x) for x in p.path] for p in ps]
+    out = [[rank.get(x, -5) for x in p.path] for p in ps]
     return out, ps, None
 
 
@@ -304,16 +366,41 @@ class Run:
     pass
 
 
-def run_impl(spec, variant_budget=6, rng=None):
-    """Build the part, run every entry point, collect observations."""
+def match_parts_to_paths(r, ps, us, upd):
+    """iter_unfolded_parts yields one part per path; the ORDER of the variants is not part of the property,
+    so each part is paired with a path whose expected notes it has (first unused one); parts that match no
+    path are paired with the left-over paths in order (and will be reported by the oracle)."""
+    keys = [Counter(expected_notes(r, p, upd)) for p in ps]
+    free = list(range(len(ps)))
+    pairing = [None] * len(us)
+    for j, u in enumerate(us):
+        got = Counter(got_notes(u))
+        span = u.last_point.t if len(u._points) else None
+        for i in free:
+            if keys[i] == got and visits_of(r, ps[i])[1] == span:
+                pairing[j] = i
+                free.remove(i)
+                break
+    for j in range(len(us)):
+        if pairing[j] is None:
+            pairing[j] = free.pop(0)
+    return pairing
+
+
+def run_impl(spec, variant_budget=6, rng=None, part=None):
+    """Build the part (or take the part of an earlier step of the history), run every entry point, collect
+    observations."""
     import partitura.score as S
     r = Run()
     r.spec = spec
-    part = build(spec)
+    if part is None:
+        part = build(spec)
     r.part = part
     r.fp0 = fingerprint(part)
     r.marks = marks_of(part)
-    r.objs = dump_original(part)
+    r.intern = {}
+    r.objs = dump_original(part, r.intern)
+    r.qd = qd_table(part)
     r.segs = impl_segments(part)
     r.paths = {}
     r.pathobjs = {}
@@ -353,10 +440,30 @@ def run_impl(spec, variant_budget=6, rng=None):
             if len(us) != len(ps):
                 r.crashes.append(("iter_unfolded_parts", "%d parts for %d paths" % (len(us), len(ps))))
             else:
+                pairing = match_parts_to_paths(r, ps, us, upd)
                 for j, u in enumerate(us):
-                    r.variants.append(("iter_unfolded_parts(update_ids=%s)[%d]" % (upd, j), ps[j], upd, u))
+                    r.variants.append(("iter_unfolded_parts(update_ids=%s)[%d]" % (upd, j), ps[pairing[j]], upd, u))
         except Exception as e:  # noqa
             r.crashes.append(("iter_unfolded_parts", "%s: %s" % (type(e).__name__, e)))
+        # the other public constructors: new_part_from_path on a Path of another policy, make_score_variants
+        if rng is not None:
+            pol = rng.choice(POLICIES)
+            if r.pathobjs.get(pol):
+                j = rng.randrange(len(r.pathobjs[pol]))
+                updp = rng.random() < 0.5
+                call("new_part_from_path(get_paths%r[%d], update_ids=%s)" % (pol, j, updp), r.paths[pol][j], updp,
+                     lambda: S.new_part_from_path(r.pathobjs[pol][j], part, update_ids=updp))
+            try:
+                svs = S.make_score_variants(part)
+                if len(svs) != len(ps):
+                    r.crashes.append(("make_score_variants", "%d variants for %d paths" % (len(svs), len(ps))))
+                elif svs:
+                    j = rng.randrange(len(svs))
+                    u = svs[j].create_variant_part()
+                    pairing = match_parts_to_paths(r, ps, [u], False)
+                    r.variants.append(("make_score_variants[%d].create_variant_part()" % j, ps[pairing[0]], False, u))
+            except Exception as e:  # noqa
+                r.crashes.append(("make_score_variants", "%s: %s" % (type(e).__name__, e)))
         # unfold_part_alignment: an alignment naming exactly the notes of variant j selects a
         # variant containing all of them with the fewest notes
         if rng is not None and len(ps) >= 1:
@@ -372,6 +479,54 @@ def run_impl(spec, variant_budget=6, rng=None):
                     r.crashes.append(("unfold_part_alignment", "%s: %s" % (type(e).__name__, e)))
     r.fp1 = fingerprint(part)
     return r
+
+
+def score_level(spec, spec_b):
+    """unfold_part_maximal / unfold_part_minimal on a Score of two parts: the result is a new Score whose
+    parts are the unfoldings of the parts, and neither the Score nor its parts are modified.
+    Returns a list of (kind, message)."""
+    import partitura.score as S
+    bad = []
+    pa, pb = build(spec), build(spec_b)
+    pb.id = "P2"
+    sc = S.Score([pa, pb], id="sc")
+    before = (list(sc.parts), [id(x) for x in sc.parts], fingerprint(pa), fingerprint(pb))
+    intern_a, intern_b = {}, {}
+    dump_original(pa, intern_a)
+    dump_original(pb, intern_b)
+    calls = [("unfold_part_maximal(Score, update_ids=True)", lambda x: S.unfold_part_maximal(x, update_ids=True)),
+             ("unfold_part_maximal(Score, update_ids=False, ignore_leaps=False)",
+              lambda x: S.unfold_part_maximal(x, update_ids=False, ignore_leaps=False)),
+             ("unfold_part_minimal(Score)", lambda x: S.unfold_part_minimal(x))]
+    for label, f in calls:
+        try:
+            want = [f(pa), f(pb)]
+        except Exception:  # noqa
+            continue       # an arrangement on which the path search raises for the part alone (judged there)
+        try:
+            got = f(sc)
+        except Exception as e:  # noqa
+            bad.append(("crash", "%s raised %s: %s although each part alone can be unfolded" % (label, type(e).__name__, e)))
+            continue
+        if not isinstance(got, S.Score) or len(got.parts) != 2:
+            bad.append(("score", "%s does not return a Score with the two unfolded parts" % label))
+            continue
+        if got is sc or any(g is p for g in got.parts for p in (pa, pb)):
+            bad.append(("modified", "%s returns the original Score / an original part instead of an unfolded copy" % label))
+        for g, w, it, name in ((got.parts[0], want[0], intern_a, "first"), (got.parts[1], want[1], intern_b, "second")):
+            rg, pg = dump_variant(g, it)
+            rw, _ = dump_variant(w, it)
+            if rg != rw or pg:
+                bad.append(("score", "%s: the %s part differs from the unfolding of that part alone%s"
+                            % (label, name, (" (" + pg[0] + ")") if pg else "")))
+            for pr in timeline_problems(g)[:2]:
+                bad.append(("timeline", "%s: %s part: %s" % (label, name, pr)))
+        after = (list(sc.parts), [id(x) for x in sc.parts], fingerprint(pa), fingerprint(pb))
+        if after[1] != before[1] or any(x is not y for x, y in zip(after[0], before[0])):
+            bad.append(("modified", "%s replaced the parts of the Score it was given" % label))
+        if after[2] != before[2] or after[3] != before[3]:
+            bad.append(("modified", "%s modified a part of the Score it was given" % label))
+    return bad
 
 
 # ----------------------------------------------------------------------------
@@ -396,11 +551,14 @@ def visits_of(r, path):
 def orig_notes(r):
     """(id, start, duration, (step, alter, octave) | None, voice, staff, kind) of the original's notes/rests."""
     import partitura.score as S
+    if getattr(r, "_orig_notes", None) is not None:
+        return r._orig_notes
     out = []
     for n in r.part.iter_all(S.GenericNote, include_subclasses=True):
         kind = "rest" if isinstance(n, S.Rest) else "note"
         pitch = None if kind == "rest" else (n.step, n.alter, n.octave)
         out.append((n.id, n.start.t, n.end.t - n.start.t, pitch, n.voice, n.staff, kind))
+    r._orig_notes = out      # the original does not change during a step (checked by the fingerprint)
     return out
 
 
@@ -460,7 +618,7 @@ def oracle_variant(r, label, path, upd, u):
                         bad.append(("nav", "%s remains in the unfolded part at t=%d" % (type(o).__name__, tp.t)))
     # O2 references closed: every reference of a copy is the copy (same visit) of the original's
     # target when that target was copied in the visit, else None
-    rows, problems = dump_variant(u)
+    rows, problems = dump_variant(u, r.intern)
     for p in problems:
         bad.append(("refs", p))
     orig = {row[0]: row for row in r.objs}
@@ -497,10 +655,10 @@ def oracle_variant(r, label, path, upd, u):
                 trow = orig[t]
                 if (t, k) in copied and s <= trow[2] < e:
                     w.append((t, trow[2] - s + off))
-                elif ai not in SINGLE_ATTRS:
-                    w.append(None)      # list-valued attribute: the slot stays, holding None
             want.append((ai, w))
-        if want != [(a, list(x)) for a, x in row[6]]:
+        # a partner that was not copied in this visit leaves None (an empty slot of a list-valued attribute
+        # is not a reference: ignored)
+        if want != [(a, [t for t in x if t is not None]) for a, x in row[6]]:
             bad.append(("refs", "references of the copy of object %d (%s) at t=%d are %r, expected %r (targets as (object, start))"
                         % (oidv, [n for n, c in CLS.items() if c == cls], st, row[6], want)))
     # O2 timeline invariant
@@ -508,13 +666,14 @@ def oracle_variant(r, label, path, upd, u):
         bad.append(("timeline", p))
     # division changes inside repeated sections keep the notes' quarter duration
     try:
+        qmap0, qmap1 = r.part.quarter_duration_map, u.quarter_duration_map
         for n in u.iter_all(S.GenericNote, include_subclasses=True):
             k = visit_index(n.start.t)
             if k is None:
                 continue
             s, e, off = vis[k]
-            q0 = int(r.part.quarter_duration_map(n.start.t - off + s))
-            q1 = int(u.quarter_duration_map(n.start.t))
+            q0 = int(qmap0(n.start.t - off + s))
+            q1 = int(qmap1(n.start.t))
             if q0 != q1 or n.start.quarter != q0:
                 bad.append(("quarter", "note %s at t=%d has quarter duration %d (time point %r), original %d"
                             % (n.id, n.start.t, q1, n.start.quarter, q0)))
@@ -652,9 +811,42 @@ def oracle_paths(r):
     return bad[:8]
 
 
+def oracle_twin(r):
+    """The unfolding does not depend on where the part starts on its time axis: the same part with another
+    first time point has the same paths (as measure sequences) for every policy."""
+    spec = r.spec
+    t0 = spec.get("t0", 0)
+    twin = dict(spec)
+    twin["t0"] = 0 if t0 else [spec["measures"][0], 1, 7][len(spec.get("notes", [])) % 3]
+    twin.pop("edit", None)
+    twin.pop("add_segments", None)
+    try:
+        part = build(twin)
+        t = Run()
+        t.spec = twin
+        t.segs = impl_segments(part)
+        t.paths = {pol: impl_paths(part, pol)[0] for pol in POLICIES}
+    except Exception as e:  # noqa
+        return [("twin", "the same part starting at t=%d could not be processed: %s: %s" % (twin["t0"], type(e).__name__, e))]
+    bad = []
+    for pol in POLICIES:
+        a, b = r.paths[pol], t.paths[pol]
+        if (a is None) != (b is None):
+            bad.append(("twin", "get_paths%r %s for the part starting at t=%d but %s for the same part starting at t=%d"
+                        % (pol, "raises" if a is None else "returns", t0, "raises" if b is None else "returns", twin["t0"])))
+        elif a is not None:
+            ma = sorted(path_measures(r, p) for p in a)
+            mb = sorted(path_measures(t, p) for p in b)
+            if ma != mb:
+                bad.append(("twin", "get_paths%r plays measures %r for the part starting at t=%d but %r for the same part "
+                            "starting at t=%d" % (pol, ma[:3], t0, mb[:3], twin["t0"])))
+    return bad[:2]
+
+
 def oracle(r):
     """All direct checks of one run; list of (kind, message, extra)."""
     bad = [(k, m, {}) for k, m in oracle_paths(r)]
+    bad += [(k, m, {}) for k, m in oracle_twin(r)]
     for label, err in r.crashes:
         bad.append(("crash", "%s raised %s" % (label, err), {"call": label}))
     for label, path, upd, u in r.variants:
@@ -726,10 +918,12 @@ def gen_structure(rng, kind):
             m += b[1]
             total = max(x for e in b[2] for x in e)
             grp = []
+            # a group at the very beginning may come without repeat signs: it repeats from the beginning
+            signs = not (a == 0 and rng.random() < 0.35)
             for nums in b[2]:
                 st["endings"].append([m, m + 1, ",".join(str(x) for x in nums)])
                 grp.append([m, m + 1, list(nums)])
-                if any(x != total for x in nums):
+                if signs and any(x != total for x in nums):
                     st["repeats"].append([a, m + 1])
                 m += 1
             st["volta_groups"].append([a, grp])
@@ -780,7 +974,7 @@ def add_navigation(rng, st):
 TS_CHOICES = [(4, 4), (3, 4), (2, 4), (6, 8), (2, 2)]
 
 
-def gen_spec(rng, kind=None, rich=True):
+def gen_spec(rng, kind=None, rich=True, top=True):
     kind = kind or rng.choices(["none", "simple", "volta", "nested", "nav"], [6, 30, 22, 12, 30])[0]
     st = gen_structure(rng, "mixed" if kind == "nav" else kind)
     if kind == "nav":
@@ -825,8 +1019,11 @@ def gen_spec(rng, kind=None, rich=True):
                 spec["qdchanges"].append([m, cur_qd])
         measures.append(cur_ts[0] * cur_qd * 4 // cur_ts[1])
     spec["measures"] = measures
-    if rng.random() < 0.08:
-        spec["t0"] = measures[0]
+    spec["bb"] = bb
+    if rng.random() < 0.2:
+        spec["t0"] = rng.choice([measures[0], 1, 7])      # the part does not start at time 0
+    if rng.random() < 0.25:
+        spec["add_segments"] = True                       # history: add_segments(part) was called before
     notes, ties, graces, slurs, tuplets = [], [], [], [], []
     v1 = []          # voice-1 note ids in order, with measure
     ni = 0
@@ -884,7 +1081,38 @@ def gen_spec(rng, kind=None, rich=True):
         if rng.random() < 0.25:
             spec["barlines"] = [n]
     spec.update({"notes": notes, "ties": ties, "graces": graces, "slurs": slurs, "tuplets": tuplets})
+    if top and rng.random() < 0.25:
+        ed = gen_edit(rng, spec)
+        if ed:
+            spec["edit"] = ed
+    if top and rng.random() < 0.12:
+        # the part is also unfolded as a member of a Score, next to a second part
+        spec["score_with"] = gen_spec(rng, rich=False, top=False)
+        spec["score_with"].pop("add_segments", None)
     return spec
+
+
+def gen_edit(rng, spec):
+    """A change made to the part after it has been unfolded once (second step of the history)."""
+    bb, n = spec["bb"], len(spec["measures"])
+    used = [(a, b) for a, b in spec.get("repeats", [])] + [(a, b) for a, b, _ in spec.get("endings", [])]
+    free = [(bb[i], bb[i + 1]) for i in range(len(bb) - 1)
+            if bb[i] < bb[i + 1] and all(b <= bb[i] or bb[i + 1] <= a for a, b in used)]
+    options = ["note"]
+    if free:
+        options += ["add", "add"]
+    simple = (not spec.get("endings") and spec.get("repeats")
+              and all(a < b for a, b in spec["repeats"])
+              and all(x[1] <= y[0] for x, y in zip(sorted(spec["repeats"]), sorted(spec["repeats"])[1:])))
+    if simple:
+        options += ["remove", "remove"]
+    what = rng.choice(options)
+    if what == "add":
+        return {"add_repeat": list(rng.choice(free))}
+    if what == "remove":
+        return {"remove_repeat": rng.randrange(len(spec["repeats"]))}
+    m = rng.randrange(n)
+    return {"add_notes": [["x0", "note", m, 0, spec["measures"][m], rng.randint(0, 80), 2, 1]]}
 
 
 def small_scope_specs():
@@ -920,19 +1148,24 @@ def small_scope_specs():
             "notes": [["n%d" % m, "note", m, 0, 4, 30 + m, 1, 1] for m in range(n)],
             "ties": [["n%d" % m, "n%d" % (m + 1)] for m in range(n - 1)]}
     for nav in navs:
-        for reps in rep_sets:
-            s = dict(base)
-            s.update(nav)
-            if reps:
-                s["repeats"] = reps
-            s["kind"] = "small"
-            yield s
-        for v in voltas:
-            s = dict(base)
-            s.update(nav)
-            s.update(v)
-            s["kind"] = "small"
-            yield s
+        for t0 in ((0, 3) if nav else (0,)):       # navigation: also with the part starting later than 0
+            for reps in rep_sets:
+                s = dict(base)
+                s.update(nav)
+                if reps:
+                    s["repeats"] = reps
+                if t0:
+                    s["t0"] = t0
+                s["kind"] = "small"
+                yield s
+            for v in voltas:
+                s = dict(base)
+                s.update(nav)
+                s.update(v)
+                if t0:
+                    s["t0"] = t0
+                s["kind"] = "small"
+                yield s
 
 
 # ----------------------------------------------------------------------------
@@ -955,7 +1188,7 @@ def c_obj(row):
     oidv, cls, st, en, sig, attrs, refs = row
     return "(mkObj %s %s %s %s %s %s %s)" % (
         cz(oidv), cz(cls), cz(st), copt(en, cz), cz(sig), ctuple([cz(a) for a in attrs]),
-        clist([ctuple([cz(a), czl(t)]) for a, t in refs]))
+        clist(["(mkORef %s %s)" % (cz(a), czl(t)) for a, t in refs if t]))      # attributes holding a reference
 
 
 def c_seg(s):
@@ -969,19 +1202,25 @@ def c_paths(pol, ps):
 
 def c_row(row):
     oidv, cls, st, en, attrs, suffix, refs = row
-    return ctuple([cz(oidv), cz(cls), cz(st), copt(en, cz), ctuple([cz(a) for a in attrs]), cz(suffix),
-                   clist([ctuple([cz(a), clist([copt(t, lambda t: ctuple([cz(t[0]), cz(t[1])])) for t in tg])])
-                          for a, tg in refs])])
+    live = [(a, [t for t in tg if t is not None]) for a, tg in refs]
+    return "(mkRow %s %s %s %s %s %s %s %s %s)" % (
+        cz(oidv), cz(cls), cz(st), copt(en, cz), cz(attrs[0]), cz(attrs[1]), cz(attrs[2]), cz(suffix),
+        clist(["(mkRef %s %s)" % (cz(a), clist(["(mkT %s %s)" % (cz(t[0]), cz(t[1])) for t in tg]))
+               for a, tg in live if tg]))
+
+
+def c_qd(tbl):
+    return clist(["(mkQ %s %s)" % (cz(t), cz(q)) for t, q in tbl])
 
 
 def c_case(r, variants):
     vs = []
     for label, path, upd, u in variants:
-        rows, _ = dump_variant(u)
+        rows, _ = dump_variant(u, r.intern)
         rows = [x for x in rows if x[1] != CLS["Clef"]]
-        vs.append("(mkV %s %s %s)" % (czl(path), cbool(upd), clist([c_row(x) for x in rows])))
-    return "(mkC %s %s %s %s %s)" % (
-        c_marks(r.marks), clist([c_obj(o) for o in r.objs]), clist([c_seg(s) for s in r.segs]),
+        vs.append("(mkV %s %s %s %s)" % (czl(path), cbool(upd), clist([c_row(x) for x in rows]), c_qd(qd_table(u))))
+    return "(mkC %s %s %s %s %s %s)" % (
+        c_marks(r.marks), clist([c_obj(o) for o in r.objs]), c_qd(r.qd), clist([c_seg(s) for s in r.segs]),
         clist([c_paths(pol, r.paths[pol]) for pol in POLICIES]), clist(vs))
 
 
@@ -1007,10 +1246,11 @@ def with_alarm(seconds, f):
         signal.signal(signal.SIGALRM, old)
 
 
-def examine(spec, rng=None):
-    """Run the implementation and the direct oracle on a spec.  Returns (run | None, bad list, skip reason)."""
+def examine(spec, rng=None, part=None):
+    """Run the implementation and the direct oracle on a spec (one step of a history; `part` = the part left
+    by the previous step).  Returns (run | None, bad list, skip reason)."""
     try:
-        r = with_alarm(8, lambda: run_impl(spec, rng=rng))
+        r = with_alarm(8, lambda: run_impl(spec, rng=rng, part=part))
     except _Timeout:
         return None, [], "timeout"
     for pol in POLICIES:
@@ -1020,16 +1260,43 @@ def examine(spec, rng=None):
     return r, oracle(r), None
 
 
+def examine_history(spec, rng=None):
+    """All steps of a case: [(run | None, bad, skip, spec of the step, step label)].
+    Step 1: the part as built (after add_segments when the spec says so), every entry point; also as a member
+    of a Score when the spec says so.  Step 2 (spec['edit']): the same Part object changed through the public
+    API, every entry point again -- nothing computed in step 1 may survive the change."""
+    steps = []
+    r, bad, skip = examine(spec, rng=rng)
+    if r is not None and spec.get("score_with"):
+        try:
+            sb = with_alarm(8, lambda: score_level(spec, spec["score_with"]))
+        except _Timeout:
+            sb = []
+        bad = bad + [(k, m, {"call": "Score"}) for k, m in sb]
+    steps.append((r, bad, skip, spec, "as built"))
+    if r is not None and spec.get("edit") and skip is None:
+        spec2 = apply_edit(r.part, spec)
+        r2, bad2, skip2 = examine(spec2, rng=rng, part=r.part)
+        bad2 = [(k, "after the edit %s of the part unfolded before: %s" % (json.dumps(spec["edit"]), m), x) for k, m, x in bad2]
+        steps.append((r2, bad2, skip2, spec2, "after edit"))
+    return steps
+
+
 def shrink(spec, kind):
     """ddmin over the decorations of a failing spec (structure kept), keeping the same failure kind."""
     def fails(s):
         try:
-            r, bad, skip = examine(s)
+            steps = examine_history(s)
         except Exception:
             return False
-        return any(b[0] == kind for b in bad)
+        return any(b[0] == kind for st in steps for b in st[1])
 
     s = dict(spec)
+    for key in ("score_with", "edit", "add_segments", "t0"):
+        if key in s:
+            t = {k: v for k, v in s.items() if k != key}
+            if fails(t):
+                s = t
     for key in ("slurs", "tuplets", "ties", "graces", "fermatas", "words", "pages", "barlines", "qdchanges"):
         if s.get(key):
             t = dict(s)
@@ -1064,50 +1331,36 @@ def classify(spec):
     return feats
 
 
-def object_crosses_final_end(replay_obj):
-    """Known finding C09-K1: a timed object (slur) that starts in a visited segment and ends after that
-    segment's end is copied with its end at end + delta; when that lies beyond the sum of the visited
-    segments' lengths the unfolded part is longer than the concatenation.  Matches only when the observed
-    span is exactly explained by the furthest such end."""
-    try:
-        if replay_obj.get("kind") != "length" or "span" not in replay_obj:
-            return False
-        r = run_impl(replay_obj["spec"])
-        vis, total = visits_of(r, replay_obj["path"])
-        furthest = total
-        for (s, e, off) in vis:
-            for row in r.objs:
-                if s <= row[2] < e and row[3] is not None and not (10 <= row[1] <= 17):
-                    furthest = max(furthest, row[3] - s + off)
-        return furthest > total and list(replay_obj["span"]) == [0, furthest]
-    except Exception:
-        return False
-
-
 def run(ctx):
     warnings.filterwarnings("ignore")
-    ctx.rule = ("cases = measure-aligned parts built through the public API from a structured generator (weights: no "
-                "structure 6, independent simple repeats 30, repeats with 2-3 endings incl. comma numbers 22, nested "
-                "repeats 12, D.C./D.S. with Fine or To Coda/Coda plus repeats 30; decorations: ties over bar lines, "
-                "slurs over up to 5 notes, tuplets, grace chains, restated/changed time and key signatures, clefs, "
-                "division changes, fermatas, pages/systems); thorough adds every structure over 5 measures with <= 2 "
-                "repeats / one volta group x D.C./D.S./Fine/Coda arrangements having <= 5 segments.  Distinct "
-                "non-trivial = distinct (marks, notes) whose segment table has a segment with >= 2 destinations.")
+    ctx.rule = ("cases = HISTORIES on measure-aligned parts built through the public API from a structured generator "
+                "(weights: no structure 6, independent simple repeats 30, repeats with 2-3 endings incl. comma numbers "
+                "22, nested repeats 12, D.C./D.S. with Fine or To Coda/Coda plus repeats 30; decorations: ties over bar "
+                "lines, slurs over up to 5 notes, tuplets, grace chains, restated/changed time and key signatures, "
+                "clefs, division changes, fermatas, pages/systems; first time point > 0 in 20 %; add_segments(part) "
+                "called beforehand in 25 %).  Step 1: every public entry point (get_paths x 6 policies, "
+                "unfold_part_maximal x update_ids x ignore_leaps, unfold_part_minimal, iter_unfolded_parts, "
+                "new_part_from_path, make_score_variants, unfold_part_alignment); in 12 % also "
+                "unfold_part_maximal/minimal on a Score holding the part and a second one.  Step 2 (25 %): the SAME "
+                "Part object is edited (simple repeat added / removed, a note added) and everything is run again.  "
+                "Every case is also compared with its twin starting at another time.  thorough adds every structure "
+                "over 5 measures with <= 2 repeats / one volta group x D.C./D.S./Fine/Coda arrangements having <= 5 "
+                "segments, each at first time 0 and 3.  Distinct non-trivial = distinct (marks, notes) whose segment "
+                "table has a segment with >= 2 destinations.")
     ctx.trusted = ["Coq 8.16.1 kernel incl. vm_compute",
                    "harness/props/c09.py: abstraction of a Part (marks in iter_all order, object dump in time-point/"
                    "starting_objects order, canonical dump of unfolded parts) and the Python oracle",
                    "determinism of partitura's unfolding for a given Part"]
-    ctx.assumptions = ["segment ids are single characters chr(65+i) (fewer than 60 segments); ending numbers 1..9",
+    ctx.assumptions = ["fewer than 60 segments; ending numbers 1..9",
                        "paths of 60 or more segments / more than 5000 paths / the implementation running > 8 s on a case are counted and "
                        "not compared (model fuel 64)",
                        "Clef copies are not compared with the model (the rule compares a clef with the previous clef "
                        "of any staff; the property does not name clefs)",
                        "original note ids are distinct"]
-    ctx.matchers["C09-K1"] = object_crosses_final_end
-    ok, why = ctx.coq_props(expect_min=15)
+    ok, why = ctx.coq_props(expect_min=20)
     rng = ctx.rng
     quick = ctx.tier == "quick"
-    n_random = 160 if quick else 2400
+    n_random = 150 if quick else 2400
     specs = []
     import os
     cdir = os.path.join(core.VERIF, "corpus", "C09")
@@ -1126,69 +1379,77 @@ def run(ctx):
     for origin, spec in specs:
         sub = __import__("random").Random(rng.getrandbits(32))
         try:
-            r, bad, skip = examine(spec, rng=sub)
+            steps = examine_history(spec, rng=sub)
         except Exception as e:  # building the part failed: harness problem, report loudly
             ctx.violation("harness could not build/run spec: %r" % (e,), {"spec": spec, "kind": "harness"}, no_input=True)
             continue
-        if skip == "timeout":
-            ctx.count("skipped:timeout")
-            continue
-        if origin == "small" and len(r.segs) > 5:
-            ctx.count("small:more_than_5_segments")
-            continue
-        ctx.evaluations += 1
         ctx.count("kind:" + spec.get("kind", "?"))
         for f in classify(spec):
             ctx.count("feature:" + f)
-        ctx.count("variants", len(r.variants))
-        if any(len(s[3]) + len(s[4]) >= 2 for s in r.segs):
-            ctx.nontrivial(json.dumps([r.marks, spec.get("notes")], sort_keys=True))
-        if any(v is None for v in r.paths.values()):
-            ctx.count("outcome:get_paths_raises")
-        if bad and nviol < 6:
-            seen_kinds = set()
-            for kind, msg, extra in bad:
-                if kind in seen_kinds:
-                    continue
-                seen_kinds.add(kind)
-                obj = {"spec": spec, "kind": kind, "message": msg}
-                obj.update(extra)
-                known = any(ctx.matchers.get(k["id"]) and ctx.matchers[k["id"]](obj) for k in ctx.known)
-                if not known and origin != "small":
-                    obj["spec"] = shrink(spec, kind)      # shrink only what will be reported
-                res = ctx.violation("C09 %s: %s" % (kind, msg), obj)
-                if res != "known":
-                    nviol += 1
-        if skip == "too_long":
-            ctx.count("skipped:too_long_for_model")
-            continue
-        # variants sent to the model: maximal (both update_ids), minimal, up to 2 of iter_unfolded_parts
-        vs = [v for v in r.variants if not v[0].startswith("iter_")][:3]
-        its = [v for v in r.variants if v[0].startswith("iter_")]
-        if its:
-            vs += sub.sample(its, min(2 if origin != "small" else 1, len(its)))
-        ctx.sample({"spec": spec, "segments": r.segs, "paths_all": r.paths[POLICIES[0]]}, limit=3)
-        terms.append(c_case(r, vs))
-        kept.append(spec)
-    ctx.log("implementation + oracle done on %d cases; evaluating the model on %d" % (ctx.evaluations, len(terms)))
+        for r, bad, skip, spec_n, label in steps:
+            if skip == "timeout":
+                ctx.count("skipped:timeout")
+                continue
+            if origin == "small" and len(r.segs) > 5:
+                ctx.count("small:more_than_5_segments")
+                continue
+            ctx.evaluations += 1
+            ctx.count("step:" + label)
+            ctx.count("variants", len(r.variants))
+            if any(len(s[3]) + len(s[4]) >= 2 for s in r.segs):
+                ctx.nontrivial(json.dumps([r.marks, spec_n.get("notes")], sort_keys=True))
+            if any(v is None for v in r.paths.values()):
+                ctx.count("outcome:get_paths_raises")
+            if bad and nviol < 6:
+                seen_kinds = set()
+                for kind, msg, extra in bad:
+                    if kind in seen_kinds:
+                        continue
+                    seen_kinds.add(kind)
+                    obj = {"spec": spec, "kind": kind, "message": msg, "step": label}
+                    obj.update(extra)
+                    if origin != "small":
+                        obj["spec"] = shrink(spec, kind)      # shrink only what will be reported
+                    res = ctx.violation("C09 %s: %s" % (kind, msg), obj)
+                    if res != "known":
+                        nviol += 1
+            if skip == "too_long":
+                ctx.count("skipped:too_long_for_model")
+                continue
+            # variants sent to the model: maximal (both update_ids), minimal, new_part_from_path,
+            # make_score_variants, up to 2 of iter_unfolded_parts
+            mx = [v for v in r.variants if v[0].startswith("unfold_part_maximal")]
+            vs = ([sub.choice(mx)] if mx else []) + [v for v in r.variants if v[0].startswith("unfold_part_minimal")]
+            others = [v for v in r.variants if v[0].startswith(("new_part", "make_score"))]
+            if others:
+                vs.append(sub.choice(others))
+            its = [v for v in r.variants if v[0].startswith("iter_")]
+            if its:
+                vs += sub.sample(its, min(2 if origin != "small" else 1, len(its)))
+            ctx.sample({"spec": spec_n, "step": label, "segments": r.segs, "paths_all": r.paths[POLICIES[0]]}, limit=3)
+            terms.append(c_case(r, vs))
+            kept.append((spec, label))
+    ctx.log("implementation + oracle done on %d steps; evaluating the model on %d" % (ctx.evaluations, len(terms)))
     if ok:
         try:
-            codes = ctx.coq_failing("corr", "From PV Require Import Model.C09.", "", terms,
-                                    "fun c => Z.eqb (check_case c) 0", shard=25 if quick else 60, timeout=1500)
-            failing = codes
+            failing = ctx.coq_failing("corr", "From PV Require Import Model.C09.", "", terms,
+                                      "fun c => Z.eqb (check_case c) 0", shard=25 if quick else 60, timeout=1500)
         except RuntimeError as e:
             failing = None
             ctx.obligation("correspondence: model evaluation", False, str(e)[-1500:])
             ctx.violation("Coq could not evaluate the C09 model on the generated cases: " + str(e)[-800:],
                           {"kind": "harness"}, no_input=True)
         if failing is not None:
-            ctx.obligation("correspondence: make_segments = part.segments, get_paths = Path.path lists (3 policies x "
-                           "ignore_leaps), variant rows = dump of unfolded parts on %d cases" % len(terms),
+            ctx.obligation("correspondence: make_segments = segment boundaries of part.segments, get_paths = Path.path "
+                           "lists as sets (3 policies x ignore_leaps), variant rows (notes, rests, slurs, tuplets, "
+                           "measures ... row by row; time/key signatures by the signature in force; fermatas up to the "
+                           "extra copy at a segment end), quarter durations in force, on %d steps" % len(terms),
                            not failing, failing[:5])
             for i in failing[:4]:
                 which = ctx.coq_eval("From PV Require Import Model.C09.", "check_case %s" % terms[i])
-                ctx.violation("model and implementation disagree (check_case: 1 segments, 2 paths, 3 variant): %s"
-                              % which[-200:], {"spec": kept[i], "kind": "correspondence"})
+                ctx.violation("model and implementation disagree (check_case: 1 segment boundaries, 2 paths, 3 variant rows, "
+                              "4 quarter durations): %s" % which[-200:],
+                              {"spec": kept[i][0], "step": kept[i][1], "kind": "correspondence"})
     else:
         ctx.violation("proof obligations of Props/C09.v no longer check: " + why, {"theorem_or_build": why}, no_input=True)
     ctx.extra["exhaustive"] = not quick
@@ -1204,14 +1465,18 @@ def replay(obj):
     print(json.dumps(obj, indent=1, default=str)[:3000])
     if not spec:
         return 0
-    r, bad, skip = examine(spec)
-    print("segments (id, start, end, to, await_to, type):")
-    for s in r.segs:
-        print("  ", s)
-    for pol in POLICIES:
-        print("paths no_repeats=%s all_repeats=%s ignore_leap_info=%s:" % pol,
-              None if r.paths[pol] is None else ["-".join(chr(65 + i) for i in p) for p in r.paths[pol]], r.errors.get(pol, ""))
-    print("oracle findings on the implementation (%d):" % len(bad))
-    for b in bad:
-        print("  ", b[0], "|", b[1])
+    for r, bad, skip, spec_n, label in examine_history(spec):
+        print("---- step: %s" % label)
+        if r is None:
+            print("   (timeout)")
+            continue
+        print("segments (rank, start, end, to, await_to, type):")
+        for s in r.segs:
+            print("  ", s)
+        for pol in POLICIES:
+            print("paths no_repeats=%s all_repeats=%s ignore_leap_info=%s:" % pol,
+                  None if r.paths[pol] is None else ["-".join(chr(65 + i) for i in p) for p in r.paths[pol]], r.errors.get(pol, ""))
+        print("oracle findings on the implementation (%d):" % len(bad))
+        for b in bad:
+            print("  ", b[0], "|", b[1])
     return 0
